@@ -266,6 +266,22 @@ End ABF.
 Definition Zgrp : GrpOps Z := mkGrpOps Z 0 Z.add Z.sub.
 
 (* ------------------------------------------------------------------------------------------- *)
+(* (a') OPES with multiple walkers (colvarbias_opes::update_opes): at a deposition step every walker    *)
+(* contributes one kernel; heights, centres, sigmas and log-weights are gathered on replica 0 in rank   *)
+(* order and broadcast; every walker then adds all the kernels in rank order.                           *)
+(* ------------------------------------------------------------------------------------------- *)
+Section OPES.
+  Context {K : Type}.
+  (* replica 0: all[0] := own; for p = 1..n-1: all[p] := received from p *)
+  Definition opes_gather (contrib : list K) : list K := contrib.
+  (* every walker: for k in all: addKernel(k) (compression off) *)
+  Definition opes_round (contrib : list K) (ws : list (list K)) : list (list K) :=
+    map (fun l => l ++ opes_gather contrib) ws.
+  Definition opes_run (rounds : list (list K)) (n : nat) : list (list K) :=
+    fold_left (fun ws c => opes_round c ws) rounds (repeat [] n).
+End OPES.
+
+(* ------------------------------------------------------------------------------------------- *)
 (* (b) file-based multiple-walker metadynamics: one writer, one reader                          *)
 (* ------------------------------------------------------------------------------------------- *)
 
